@@ -10,7 +10,8 @@ cd "$wt" || exit 2
 git checkout -q -- . && git clean -fdq
 pkgdir=$(grep -oE '`[^`]*`' "$out/mut$i.md" | tr -d '`' | grep -E '^(\./)?(generator|runtime|safehtml|parser|cmd|lsp|internal)(/[A-Za-z0-9_./-]*)?/?$' | head -1)
 if grep -qiE "repo(sitory)? root|package .templ_test.|package .templ.\b" "$out/mut$i.md" && [ -z "$pkgdir" ]; then pkgdir="."; fi
-[ -z "$pkgdir" ] && pkgdir="${4:-.}"
+[ -n "${DEMO_DIR:-}" ] && pkgdir="$DEMO_DIR"
+[ -z "$pkgdir" ] && pkgdir="."
 echo "demo package dir: $pkgdir"
 git apply "$out/mut$i.diff" || { echo "RESULT apply=FAIL"; exit 1; }
 go build ./... > /tmp/confirm.$$.build 2>&1 && build=ok || build=FAIL
